@@ -185,6 +185,26 @@ func checkC17(c *Ctx) {
 			runCase("-i", strings.ToLower(n), []string{"-d", "-i", "ids.txt", "in.age"}, map[string]string{"ids.txt": idline + "\n"})
 		}
 	}
+	// ---- (b2) a relative PATH entry: the executable found relative to the working directory must not
+	// be run (and certainly not a same-named file somewhere else, e.g. in $TMPDIR, where the client chdirs)
+	{
+		tmpd := filepath.Join(dir, "tmp")
+		os.MkdirAll(tmpd, 0o755)
+		os.Symlink(stub, filepath.Join(tmpd, "age-plugin-ok"))
+		os.MkdirAll(filepath.Join(work, "bin"), 0o755)
+		os.Symlink(stub, filepath.Join(work, "bin", "age-plugin-ok"))
+		for _, pathv := range []string{".:/usr/bin:/bin", ":/usr/bin:/bin", "bin:/usr/bin:/bin", "/usr/bin:/bin:."} {
+			os.Remove(mark)
+			env2 := []string{"PATH=" + pathv, "TMPDIR=" + tmpd, "VERIF_PLUGIN_MARK=" + mark, "VERIF_PLUGIN_SCRIPT=" + script}
+			runCLI("age", []string{"-e", "-j", "ok"}, cliOpts{stdin: []byte("data"), dir: work, env: env2, fsize: -1})
+			b, _ := os.ReadFile(mark)
+			in := map[string]interface{}{"kind": "relative-PATH", "PATH": pathv}
+			c.Compare("processes started by the CLI~model prediction (age-plugin-NAME on PATH iff the name is valid)", in, strings.TrimSpace(string(b)), "")
+			c.Oracle("only-the-program-found-on-PATH-runs", !strings.Contains(string(b), tmpd), "wrong-program-executed", in, "a program that is not the one found by searching PATH was started: "+string(b))
+			c.note("relpath:"+pathv, true)
+			c.count("cli-relative-PATH")
+		}
+	}
 	// ---- (c) headers mentioning plugin-like stanza types, native identity: nothing starts ----
 	os.Remove(mark)
 	os.Setenv("PATH", sentinel+":/usr/bin:/bin")
